@@ -1259,8 +1259,21 @@ func (x *vTransRun) evClose(c *vTransConn) {
 func (x *vTransRun) evRole(state uint8) {
 	x.settle()
 	letters := map[uint8]string{STATE_INIT: "i", STATE_LEADER: "l", STATE_FOLLOWER: "f", STATE_SYNC: "s", STATE_CONFIG: "c", STATE_VOTE: "v", STATE_CLOSE: "x"}
+	// the node serves more than database 0, and not contiguous ids (a client command with DbId 5 creates database 5 the same way)
+	if x.w.F.s.dbs[5] == nil {
+		x.w.F.s.GetOrNewDB(5)
+	}
 	x.w.F.s.updateState(state)
 	x.role = state
+	// C10: every database of the node follows the node's role — a database that still believes it is the leader's grants, releases and
+	// ends holds on its own clock
+	for id, db := range x.w.F.s.dbs {
+		if db != nil && (db.status == STATE_LEADER) != (state == STATE_LEADER) {
+			x.report("C10:database-kept-its-role", fmt.Sprintf("the node changed to state %s, but its database %d still has status %d: it %s decide client requests and end replicated holds on its own",
+				letters[state], id, db.status, map[bool]string{true: "will", false: "will refuse to"}[db.status == STATE_LEADER]))
+			break
+		}
+	}
 	x.ev("s "+letters[state], "ok")
 }
 
